@@ -235,6 +235,26 @@ func (a *Allocator) Destroy() error {
 	}
 
 	for memoryTypeIndex := 0; memoryTypeIndex < a.deviceMemory.MemoryTypeCount(); memoryTypeIndex++ {
+		blockList := a.memoryBlockLists[memoryTypeIndex]
+		if blockList == nil {
+			continue
+		}
+
+		for _, block := range blockList.blocks {
+			if !block.metadata.IsEmpty() {
+				// Reports the unreleased allocations and fails without releasing anything
+				errs = append(errs, blockList.Destroy())
+				break
+			}
+		}
+	}
+
+	if len(errs) > 0 {
+		// The allocator is still in use: report it without releasing anything
+		return errors.Join(errs...)
+	}
+
+	for memoryTypeIndex := 0; memoryTypeIndex < a.deviceMemory.MemoryTypeCount(); memoryTypeIndex++ {
 		if a.memoryBlockLists[memoryTypeIndex] == nil {
 			// Memory types excluded by globalMemoryTypeBits never got a block list
 			continue
